@@ -45,7 +45,7 @@ theorem playStep_facts (s : RS) (idx : Nat) (evs : List Ev) (pa : Bool) :
     (playStep s idx evs pa).1.stopped = s.stopped ∧ (playStep s idx evs pa).1.loops = s.loops ∧
     (playStep s idx evs pa).2 = Obs.eff idx s.nextTime :: evs.map Obs.ev := by
   unfold playStep
-  refine ⟨?_, ?_, ?_⟩ <;> (dsimp only; split <;> rfl)
+  refine ⟨?_, ?_, ?_⟩ <;> (dsimp only; try (split <;> rfl))
 
 theorem stop_facts (s : RS) (hs : s.stopped = false) :
     (stop s).1.stopped = true ∧ (stop s).1.loops = s.loops ∧
@@ -147,7 +147,7 @@ theorem ledger_runRes (n0 : Option Nat) (s : RS) (post : List Ev) (r : RS × Lis
       have h1 : cntE e (if s.dirty = true then [Obs.clr] else []) = 0 := by split <;> simp [cntE]
       rw [h1]
       by_cases he1 : e = Ev.stopped <;> by_cases he2 : e = Ev.completed <;>
-        simp [cntE, he1, he2, List.count_cons, eq_comm]
+        simp [cntE, he1, he2, eq_comm]
     refine ⟨by rw [cntE_append, a, hev, hpl]; simp, by rw [cntE_append, b, hev, hst, hrs]; simp,
       by rw [cntE_append, cntE_append, hev, hev, hco, hst, hc0, b]; simp, ?_⟩
     unfold LoopAcc at d ⊢
